@@ -405,6 +405,7 @@ impl SessionEngine {
     requires
         forall|i: int| 0 <= i < old(self).outgoing_link_frames.queue@.len() ==> !((#[trigger] old(self).outgoing_link_frames.queue@[i]) is Acquisition),
         old(self).session.st is EndSent || old(self).session.st is Discarding,
+        old(self).session.stop is Some,     // [C15.engine.error-visible-before-waiting-for-the-peer] this wait is entered only from on_error -> end_session: the engine has found a violation (or a local failure) and has written its End. What it found is published (stop reason set; the link relays dropped) BEFORE it waits for the peer's End: the wait has no bound, and a misbehaving peer that never answers -- while it keeps the connection alive with empty frames -- otherwise leaves recv(), session.on_end() pending for ever with no error (the error exists only on the wire)
     ensures
         final(self).outgoing.sent@ == old(self).outgoing.sent@,                              // [C13.session.nothing-after-end] while waiting for the peer's End nothing is written, whatever arrives
         r is Ok ==> final(self).incoming.taken@.len() > old(self).incoming.taken@.len()
